@@ -369,3 +369,46 @@ decode_tags!(c10_decode_total_unknown255, [255]);
 //  of len/dims symbolic exhausts 12 GB: the arm owns a Vec<Value> whose drop glue CBMC explores for every
 //  variant on each early-return path. The two `Vec::with_capacity(count read from the file)` sites of the
 //  array arm are therefore OUTSIDE the claim; see DESIGN.md section 6, S5.)
+
+// ---------------------------------------------------------------------------------------
+// decode_snapshot framing (magic, version, count) on short / truncated files
+// ---------------------------------------------------------------------------------------
+use crate::common::fixed_random_state;
+
+fn snapshot_one<const N: usize>() {
+    let buf: [u8; N] = kani::any();
+    let r = decode_snapshot_bytes(&buf);
+    if N < 10 { assert!(r.is_err(), "C10: a file shorter than the 10-byte header was accepted"); }
+    if let Ok(s) = &r {
+        assert!(buf[0] == b'S' && buf[1] == b'T' && buf[2] == b'R' && buf[3] == b'N', "C10: wrong magic accepted");
+        assert!(buf[4] == 1 && buf[5] == 0, "C10: unsupported version accepted");
+    }
+    std::mem::forget(r);
+}
+
+// @verif prop=C10 kernel=K2 tiers=quick,thorough timeout=1800 unwind=1 stubbing=yes mem=12 loops=memcmp:6,compare_bytes:6,decode_snapshot:2
+// @verif what=decode_snapshot on every file of 0..=10 bytes: Ok/Err, never a panic or out-of-bounds slice (empty and truncated files left by an interrupted save), magic and version enforced
+// @verif fns=retain::{decode_snapshot,RetainReader::{read_bytes,read_u16,read_u32}}
+// @verif bound=all byte strings of each length 0..=10 (length concrete per call site, content symbolic); with 10 bytes only count = 0 decodes
+// @verif stub=std::hash::RandomState::new -> fixed keys; alloc::vec::Vec::<T>::with_capacity -> allocation monitor
+#[kani::proof]
+#[kani::stub(std::hash::RandomState::new, fixed_random_state)]
+#[kani::stub(std::vec::Vec::with_capacity, monitored_with_capacity)]
+fn c10_decode_snapshot_short_files() {
+    let sel: u8 = kani::any();
+    match sel {
+        0 => snapshot_one::<0>(), 1 => snapshot_one::<1>(), 2 => snapshot_one::<2>(), 3 => snapshot_one::<3>(),
+        4 => snapshot_one::<4>(), 5 => snapshot_one::<5>(), 6 => snapshot_one::<6>(), 7 => snapshot_one::<7>(),
+        8 => snapshot_one::<8>(), 9 => snapshot_one::<9>(), _ => {
+            let mut buf: [u8; 10] = kani::any();
+            buf[6] = 0; buf[7] = 0; buf[8] = 0; buf[9] = 0; // count = 0
+            let r = decode_snapshot_bytes(&buf);
+            let good = buf[0] == b'S' && buf[1] == b'T' && buf[2] == b'R' && buf[3] == b'N' && buf[4] == 1 && buf[5] == 0;
+            assert!(r.is_ok() == good, "C10: header acceptance differs from magic STRN + version 1");
+            kani::cover!(r.is_ok());
+            std::mem::forget(r);
+        }
+    }
+    kani::cover!(sel == 0);
+    kani::cover!(sel == 3);
+}
